@@ -451,4 +451,135 @@ mutual
     | t :: ts => zeroBinders t :: zeroBindersList ts
 end
 
+-- ---------------------------------------------------------------- CodeGenInterner (optimize/interner.rs)
+/-- `CodeGenInterner { identifiers: HashMap<InternKey, Vec<Unique>>, current }`;
+`InternKey = (name, previous_unique)`; each `Vec<Unique>` is stored last-element-first
+(`push` = cons, `last` = head, `pop` = tail). -/
+structure Interner where
+  identifiers : List ((String × Int) × List Int)
+  current : Int
+  deriving Repr
+
+def Interner.new : Interner := ⟨[], 0⟩
+
+/-- `fresh_unique` -/
+def Interner.fresh (s : Interner) : Int × Interner := (s.current, { s with current := s.current + 1 })
+
+/-- `bind`: `identifiers.entry(key).or_default().push(fresh)` -/
+def Interner.bind (s : Interner) (key : String × Int) : Int × Interner :=
+  let (u, s1) := s.fresh
+  let stack := match hmGet key s1.identifiers with
+    | some st => st
+    | none => []
+  (u, { s1 with identifiers := hmInsert key (u :: stack) s1.identifiers })
+
+/-- `lookup` -/
+def Interner.lookup (s : Interner) (key : String × Int) : Int × Interner :=
+  match hmGet key s.identifiers with
+  | some (u :: _) => (u, s)
+  | _ => s.fresh
+
+/-- `unbind` (the two `expect`s are panics) -/
+def Interner.unbind (s : Interner) (key : String × Int) : Except Err Interner :=
+  match hmGet key s.identifiers with
+  | none => .error (.panic "missing binder during interning")
+  | some [] => .error (.panic "empty binder stack during interning")
+  | some (_ :: rest) =>
+    if rest.isEmpty then .ok { s with identifiers := hmRemove key s.identifiers }
+    else .ok { s with identifiers := hmInsert key rest s.identifiers }
+
+mutual
+  /-- `CodeGenInterner::term` -/
+  def internTerm : Term Name → Interner → Except Err (Term Name × Interner)
+    | .var n, s =>
+      let (u, s') := s.lookup (n.text, n.unique)
+      pure (.var ⟨n.text, u⟩, s')
+    | .delay t, s => do
+      let (t', s') ← internTerm t s
+      pure (.delay t', s')
+    | .lam n body, s => do
+      let (u, s1) := s.bind (n.text, n.unique)
+      let (body', s2) ← internTerm body s1
+      let s3 ← s2.unbind (n.text, n.unique)
+      pure (.lam ⟨n.text, u⟩ body', s3)
+    | .app f a, s => do
+      let (f', s1) ← internTerm f s
+      let (a', s2) ← internTerm a s1
+      pure (.app f' a', s2)
+    | .const c, s => pure (.const c, s)
+    | .force t, s => do
+      let (t', s') ← internTerm t s
+      pure (.force t', s')
+    | .error, s => pure (.error, s)
+    | .builtin b, s => pure (.builtin b, s)
+    | .constr tag fs, s => do
+      let (fs', s') ← internList fs s
+      pure (.constr tag fs', s')
+    | .case c bs, s => do
+      let (c', s1) ← internTerm c s
+      let (bs', s2) ← internList bs s1
+      pure (.case c' bs', s2)
+  def internList : List (Term Name) → Interner → Except Err (List (Term Name) × Interner)
+    | [], s => pure ([], s)
+    | t :: ts, s => do
+      let (t', s1) ← internTerm t s
+      let (ts', s2) ← internList ts s1
+      pure (t' :: ts', s2)
+end
+
+/-- `CodeGenInterner::new().program(&mut p)` on the term -/
+def intern (t : Term Name) : Except Err (Term Name) := (internTerm t Interner.new).map (·.1)
+
+/-- binder resolution by the interner's key `(text, unique)` -/
+def resolveKey : List (String × Int) → String × Int → Option Nat
+  | [], _ => none
+  | v :: env, k => if v = k then some 1 else (resolveKey env k).map (· + 1)
+
+-- ---------------------------------------------------------------- parser Interner (parser/interner.rs)
+/-- `parser::interner::Interner { identifiers: HashMap<String, Unique>, current }` -/
+structure PInterner where
+  identifiers : List (String × Int)
+  current : Int
+  deriving Repr
+
+def PInterner.new : PInterner := ⟨[], 0⟩
+
+/-- `Interner::intern` -/
+def PInterner.intern (s : PInterner) (text : String) : Int × PInterner :=
+  match hmGet text s.identifiers with
+  | some u => (u, s)
+  | none => (s.current, ⟨hmInsert text s.current s.identifiers, s.current + 1⟩)
+
+mutual
+  /-- `parser::interner::Interner::term` -/
+  def pinternTerm : Term Name → PInterner → Term Name × PInterner
+    | .var n, s => let (u, s') := s.intern n.text; (.var ⟨n.text, u⟩, s')
+    | .delay t, s => let (t', s') := pinternTerm t s; (.delay t', s')
+    | .lam n body, s =>
+      let (u, s1) := s.intern n.text
+      let (body', s2) := pinternTerm body s1
+      (.lam ⟨n.text, u⟩ body', s2)
+    | .app f a, s =>
+      let (f', s1) := pinternTerm f s
+      let (a', s2) := pinternTerm a s1
+      (.app f' a', s2)
+    | .const c, s => (.const c, s)
+    | .force t, s => let (t', s') := pinternTerm t s; (.force t', s')
+    | .error, s => (.error, s)
+    | .builtin b, s => (.builtin b, s)
+    | .constr tag fs, s => let (fs', s') := pinternList fs s; (.constr tag fs', s')
+    | .case c bs, s =>
+      let (c', s1) := pinternTerm c s
+      let (bs', s2) := pinternList bs s1
+      (.case c' bs', s2)
+  def pinternList : List (Term Name) → PInterner → List (Term Name) × PInterner
+    | [], s => ([], s)
+    | t :: ts, s =>
+      let (t', s1) := pinternTerm t s
+      let (ts', s2) := pinternList ts s1
+      (t' :: ts', s2)
+end
+
+def pintern (t : Term Name) : Term Name := (pinternTerm t PInterner.new).1
+
 end AikenVerif.Db
